@@ -95,6 +95,27 @@ CLAIMED = {
         "harness lock. Schedules are sampled on the real code, exhaustive on the model.",
    technique="TLA+ wire-format and channel specification + TLC model checking of the aggregation protocol + TLC trace validation of real MPI runs",
    engine="mc+free+tv", design_ref="6/C17"),
+ "C18": dict(
+   category="model_checking",
+   text="GluonAbs.tla defines the outcome of a sync (readable proxies hold Reduce(master's previous value, all contributions since the last "
+        "sync); untouched nodes keep their values); Gluon.tla model-checks reduce + broadcast with unordered message arrival over two "
+        "consecutive syncs for min and add fields and arbitrary eligible/readable proxy sets (and rejects a sync that does not reset "
+        "mirrors). The real GluonSubstrate runs under mpirun on 1-4 hosts for all 16 CuSP policy variants: rounds over all nine "
+        "write/read location pairs, min/add/max, bitset on/off, all five enforced encodings, update densities 0-100%, add fields also "
+        "across two syncs; values before the operator, contributions and values after the sync are logged and TLC replays them.",
+   note="Trusted: TLC, harness logging, Open MPI. Bulk-synchronous only; message orders sampled on the real code, exhaustive on the model.",
+   technique="TLA+ specification of sync outcomes + TLC model checking of the reduce/broadcast protocol + TLC trace validation of real multi-host MPI runs",
+   engine="mc+free+tv", design_ref="6/C18"),
+ "C19": dict(
+   category="model_checking",
+   text="PartitionAbs.tla states the joint promises of a partitioning (edges with data exactly once, one consistently named master per "
+        "node, unique in-range local ids with inverse maps, masters before mirrors, mirror lists = proxies mastered at the peer, "
+        "edge-cut placement). The real CuSP partitioner runs under mpirun on 1-4 hosts for 16 policy/orientation variants on random "
+        "graphs (isolated nodes, skew, self loops, parallel edges, fewer nodes than hosts, symmetric inputs); every host dumps its local "
+        "graph through the public DistGraph API and TLC judges the merged dumps.",
+   note="Trusted: TLC, harness dumping, the Python .gr writer. Small graphs (<= 13 nodes). Vertex-cut specific placement is not constrained.",
+   technique="TLA+ partition specification + TLC trace validation of real multi-host partitioner runs",
+   engine="free+tv", design_ref="6/C19"),
  "C05": dict(
    category="model_checking",
    text="Each barrier (counting, MCS tree, dissemination, topology-aware for 6 socket layouts, the condition-variable "
